@@ -988,6 +988,18 @@ def run_go_forms(item):
         s.kill()
 
 
+PROMOTED_BY_MOVE_LIST = [
+    ("8/4P2k/8/8/8/8/8/K7 w - - 0 1", "e7e8q", "4Q3/7k/8/8/8/8/8/K7 b - - 0 1"),
+    ("1k6/6P1/8/8/8/8/8/K7 w - - 0 1", "g7g8r", "1k4R1/8/8/8/8/8/8/K7 b - - 0 1"),
+    ("8/4P2k/8/8/8/8/8/K7 w - - 0 1", "e7e8n", "4N3/7k/8/8/8/8/8/K7 b - - 0 1"),
+    ("8/4P2k/8/8/8/8/8/K7 w - - 0 1", "e7e8B", "4B3/7k/8/8/8/8/8/K7 b - - 0 1"),
+    ("k7/8/8/8/8/8/4p2K/8 b - - 0 1", "e2e1q", "k7/8/8/8/8/8/7K/4q3 w - - 0 2"),
+    ("k7/8/8/8/8/8/4p2K/8 b - - 0 1", "e2e1R", "k7/8/8/8/8/8/7K/4r3 w - - 0 2"),
+    ("k7/8/8/8/8/8/4p2K/8 b - - 0 1", "e2e1b", "k7/8/8/8/8/8/7K/4b3 w - - 0 2"),
+    ("k7/8/8/8/8/8/4p2K/8 b - - 0 1", "e2e1n", "k7/8/8/8/8/8/7K/4n3 w - - 0 2"),
+]
+
+
 def check_C03(ctx):
     n = ctx.size(28, 500)
     pool = small_pool(ctx, n)
@@ -1005,6 +1017,9 @@ def check_C03(ctx):
         k = ctx.rng.randint(3, len(steps))
         mvs = [m for m, _ in steps[:k]]
         items.append((steps[k - 1][1], ctx.rng.sample(GO_FORMS, 5), "position startpos moves " + " ".join(mvs), None))
+    # positions set by a move list that contains a promotion, the promoted piece still on the board
+    for start, mv, after in PROMOTED_BY_MOVE_LIST:
+        items.append((after, ctx.rng.sample(GO_FORMS, 4), f"position fen {start} moves {mv}", None))
     results = parallel_map(run_go_forms, items, workers=min(8, infra.NCPU))
     fens = [it[0] for it in items]
     legal = legal_set(fens)
@@ -1054,6 +1069,16 @@ def run_pv_session(item):
         s.kill()
 
 
+PV_ENDS_EARLY = [
+    "6rr/8/6q1/3Q4/8/k7/8/K7 w - - 0 1",       # Qb3+ Kxb3 stalemate: the only way not to lose
+    "rr6/8/1q6/4Q3/8/7k/8/7K w - - 0 1",       # the same on the other wing
+    "7k/8/5K2/8/8/8/8/6R1 w - - 0 1",          # mate in two
+    "k7/8/1K6/8/8/8/8/7R w - - 0 1",           # mate in one
+    "5k2/5P2/5K2/8/8/8/8/8 w - - 0 1",         # every move but one stalemates or loses the pawn
+    "k7/2K5/1P6/8/8/8/8/8 w - - 0 1",          # b7+ Ka7 b8=Q+ ... lines with stalemate traps
+]
+
+
 def check_C10(ctx):
     n = ctx.size(24, 400)
     pool = small_pool(ctx, n, max_men=20 if ctx.quick else 32)
@@ -1070,6 +1095,12 @@ def check_C10(ctx):
         else:
             d, k = ctx.rng.choice([(2, 0), (2, 1), (3, 0), (3, 2)])
             items.append((f, "go movetime 400", None, dict(env, VERIF_EXPIRE=f"rootmove:{d}:{k}")))
+    # lines that END inside the full-width part of the tree: a stalemate or a mate on the principal variation
+    # (forced stalemate as the only way not to lose; mates in one and two), at several depths
+    env0 = {"VERIF_SLEEP": "rootmove:1:0:215", "VERIF_TRACE": "1"}
+    for f in gens.legal_filter(list(dict.fromkeys(PV_ENDS_EARLY + [gens.mirror_fen(x) for x in PV_ENDS_EARLY]))):
+        for d in (3, 4, 5):
+            items.append((f, f"go depth {d}", None, env0))
     results = parallel_map(run_pv_session, items, workers=min(8, infra.NCPU))
     pv_ops, pv_meta = [], []
     fens = [it[0] for it in items]
